@@ -632,7 +632,7 @@ def run(ctx):
 
     hyp_run(ctx, res, cases(), body, ctx.pick(1500, 3000), label='populations')
     hyp_run(ctx, res, inferred_cases(), body, ctx.pick(100, 500), label='inferred')
-    hyp_run(ctx, res, container_cases(), body, ctx.pick(25, 120), label='containers')
+    hyp_run(ctx, res, container_cases(), body, ctx.pick(60, 200), label='containers')
     return res
 
 
